@@ -355,6 +355,7 @@ class Interp:
         self.var_names = {}
         self.cond_stack = []
         self.extra_guards = []
+        self.early_conds = []      # (condition with boolean tree, value, index guards) of every early exit
         self.frames = []           # call frames: early returns of the frame are folded into its result (see note_early)
         self.fold_early = True     # rules that account for early returns themselves (strictly) switch this off
         self.ref_writes = 0        # writes that went through a &mut reference (caller-visible effects)
@@ -444,6 +445,12 @@ class Interp:
         for early returns themselves read the log and switch folding off); with folding on, the frame's result becomes
         ite(c, value, rest-of-function) when the frame is left — provided the shape is one the model can express."""
         self.early_returns.append((c.key(), value))
+        # the full condition of the exit (enclosing opaque conditions included), with its boolean structure, for rules that decide
+        # WHEN a function gives up (error discipline) rather than what it computes
+        full = c
+        for oc in reversed(self.cond_stack):
+            full = cond_and(oc, full)
+        self.early_conds.append((full, value, [tuple(g) for g in self.current_guards()]))
         if not self.fold_early or not self.frames:
             return
         fr = self.frames[-1]
@@ -465,13 +472,34 @@ class Interp:
         if fr["refw"] is None:
             fr["refw"] = self.ref_writes
 
+    def note_early_rel(self, c, value, span=None):
+        """Early return under an order relation between index entities (e.g. `if id == 0 { return 1.0 }`): the rest of the function
+        is evaluated under the negated relation and the results are joined as guarded terms when the frame is left."""
+        if not self.frames:
+            raise ControlUndecided("return under an index relation outside a function frame", span)
+        fr = self.frames[-1]
+        if len(self.loops) > fr["loops"] or len(self.cond_stack) > fr["conds"] or not isinstance(value, Num):
+            raise ControlUndecided("early return under an index relation in a shape outside the model", span)
+        neg = c.negate()
+        stack = self.extra_guards if not self.loops else self.loops[-1].guards
+        stack.append(neg.data)
+        fr.setdefault("rel_guards", []).append(stack)
+        fr["early"].append((c, value))
+
     def fold_frame(self, fr, ret):
+        for st_ in reversed(fr.get("rel_guards", [])):
+            st_.pop()
         if not fr["early"]:
             return ret
         if fr["refw"] is not None and self.ref_writes != fr["refw"]:
             raise Undecided("%s writes through a &mut reference after a value-returning early exit: the effect is conditional" % fr["path"])
         for c, v in reversed(fr["early"]):
-            ret = merge_vals(c, v, ret)
+            if c.kind == "rel":
+                if not (isinstance(v, Num) and isinstance(ret, Num)):
+                    raise Undecided("early return under an index relation joins structured values in %s" % fr["path"])
+                ret = Num(v.expr.guarded([c.data]) + ret.expr.guarded([c.negate().data]))
+            else:
+                ret = merge_vals(c, v, ret)
         return ret
 
     def local_by_name(self, name):
@@ -821,8 +849,12 @@ class Interp:
         if c.kind == "rel":
             # order guard between index entities: evaluate both arms under the guard / its negation
             self.push_guard(c.data)
+            t_ret = e_ret = None
+            tv = UNIT
             try:
                 tv = self.eval(e["then"], env)
+            except ReturnSignal as r_:
+                t_ret = r_
             finally:
                 self.pop_guard()
             ev = UNIT
@@ -830,8 +862,21 @@ class Interp:
                 self.push_guard(c.negate().data)
                 try:
                     ev = self.eval(e["else"], env)
+                except ReturnSignal as r_:
+                    e_ret = r_
                 finally:
                     self.pop_guard()
+            if t_ret is not None or e_ret is not None:
+                # an arm under an index relation returns from the function: the value is that arm's under the relation and the
+                # rest of the function's under its negation
+                if t_ret is not None and e_ret is not None:
+                    a_, b_ = t_ret.value, e_ret.value
+                    if isinstance(a_, Num) and isinstance(b_, Num):
+                        raise ReturnSignal(Num(a_.expr.guarded([c.data]) + b_.expr.guarded([c.negate().data])))
+                    raise ControlUndecided("both arms of an index relation return structured values", e.get("span"))
+                rc, rv_, cont = (c, t_ret.value, ev) if t_ret is not None else (c.negate(), e_ret.value, tv)
+                self.note_early_rel(rc, rv_, e.get("span"))
+                return cont
             if isinstance(tv, UnitV) and isinstance(ev, UnitV):
                 return UNIT
             if isinstance(tv, Num) and isinstance(ev, Num):
@@ -1010,6 +1055,20 @@ class Interp:
                     p = p["sub"]
                 return p
             e = dict(e, arms=[dict(a, pat=strip_deref(a["pat"])) for a in e["arms"]])
+        # `match cond { true => a, false => b }` (also with a wildcard second arm) is `if cond { a } else { b }`
+        if isinstance(scrut, Cond) and len(e["arms"]) == 2 and all("guard" not in a or not a.get("guard") for a in e["arms"]):
+            def bool_of(p):
+                if p.get("k") == "const" and p.get("ty") == "bool":
+                    return "Leaf(0x01)" in str(p.get("value"))
+                return None
+            b0, b1 = bool_of(e["arms"][0]["pat"]), bool_of(e["arms"][1]["pat"])
+            wild1 = e["arms"][1]["pat"].get("k") in ("wild",)
+            if b0 is not None and (b1 == (not b0) or (b1 is None and wild1)):
+                t_arm, f_arm = (e["arms"][0], e["arms"][1]) if b0 else (e["arms"][1], e["arms"][0])
+                fake = {"k": "if", "cond": None, "then": t_arm["body"], "else": f_arm["body"], "span": e.get("span")}
+                if scrut.kind == "const":
+                    return self.eval(fake["then"] if scrut.data else fake["else"], env)
+                return self.if_opaque(scrut, fake, env)
         # Option / simple enum matches with a statically known variant
         if isinstance(scrut, Opt) and isinstance(scrut.some, bool):
             for arm in e["arms"]:
